@@ -87,7 +87,7 @@ func mustPub(c *vf.Ctx, blob []byte) ssh.PublicKey {
 
 func run(c *vf.Ctx) {
 	c.Rule("1: signers{rsa2048,rsa1024,p256,p384,p521,ed25519,dsa} x 22 algorithm names; 2: every valid signature x every verifier key (plain + certificate) x every presented format x {same,other data}; " +
-		"3: per valid signature every blob byte x{^01,^80}, length -1/+1 front/back, empty, structured ECDSA/RSA/Ed25519/sk faults; 4: 2 sk types x 256 flag bytes x 3 counters direct, and x 10 server configurations through a real handshake; " +
+		"3: per valid signature every blob byte (blob length depends on the signature value) x{^01,^80}, length -1/+1 front/back, empty, structured ECDSA/RSA/Ed25519/sk faults; 4: 2 sk types x 256 flag bytes x 3 counters direct, and x 10 server configurations through a real handshake; " +
 		"5: every ordered list (len 0..3) over allowed+foreign names, nested lists, x every requested algorithm; non-trivial = distinct (part, key, algorithm/fault/flags/config) whose reference verdict and package result were compared; " +
 		"oracle = reference verifier written from RFC 4253/5656/8332/8709 and PROTOCOL.u2f over the standard library")
 	c.Assume("crypto/rsa, crypto/ecdsa, crypto/ed25519, crypto/dsa, crypto/sha* of the standard library are correct")
@@ -676,6 +676,9 @@ func part4(c *vf.Ctx, keys []*keyEnt, hostSigner ssh.Signer, caPriv ed25519.Priv
 	}
 	// 4a: direct Verify, all flags x counters, plain key and certificate
 	counters := []uint32{0, 1, 0xffffffff}
+	if c.Thorough {
+		counters = []uint32{0, 1, 2, 0xff, 0x100, 0xffff, 0x10000, 0x7fffffff, 0x80000000, 0xfffffffe, 0xffffffff}
+	}
 	type job struct {
 		k     *keyEnt
 		flags int
@@ -910,7 +913,11 @@ func part5(c *vf.Ctx, keys []*keyEnt, caPriv ed25519.PrivateKey) {
 		if k.ref.Type == sr.ED25519 {
 			foreign = []string{sr.RSASHA256, sr.CertTypeOf(k.ref.Type)}
 		}
-		for _, l := range lists(append(append([]string{}, allowed...), foreign...), 3) {
+		maxLen := 3
+		if c.Thorough {
+			maxLen = 5
+		}
+		for _, l := range lists(append(append([]string{}, allowed...), foreign...), maxLen) {
 			jobs = append(jobs, job{k, l})
 		}
 		jobs = append(jobs, job{k, []string{allowed[0], allowed[0]}}, job{k, []string{""}})
